@@ -22,7 +22,7 @@ func init() {
 	Registry["C09"] = Spec{
 		Fn:          c09,
 		Level:       "exploration",
-		Rule:        "callback histories over {append, reset+append (reuses the backing memory), overwrite in place (same row count, no Reset: slice-typed columns and the Values of LowCardinality / Enum written through their exported memory), return nil unchanged, return nil after emptying the columns (a round without rows), io.EOF without rows, io.EOF with leftover rows, wrapped io.EOF with rows, other error}, initial rows zero or not: exhaustive up to 3 rounds before the terminal step for a fixed list of column sets (zero-copy: fixed-width integers, FixedString, ColRawOf, Bool, Float; copying: String, UUID, LowCardinality, Enum, Array, Map, Nullable) and random longer histories over random column sets from the whole catalogue, x {Disabled, None, LZ4, LZ4HC, ZSTD} x block sizes 1..3000 rows. Oracle: the Data blocks parsed by the reference codec from the bytes copied at Write time must equal [snapshot of the columns at the start of each round] + [one empty terminator] (tail rows on EOF included; nothing after a callback error except an optional Cancel). Non-trivial = >=2 rounds or a tail block; distinct = (history, column set, compression, rows)",
+		Rule:        "callback histories over {append, reset+append (reuses the backing memory), overwrite in place (same row count, no Reset: slice-typed columns and the Values of LowCardinality / Enum written through their exported memory), hand-over of other column objects (Input[i].Data replaced inside the callback, also together with io.EOF and leftover rows), return nil unchanged, return nil after emptying the columns (a round without rows), io.EOF without rows, io.EOF with leftover rows, wrapped io.EOF with rows, other error}, initial rows zero or not: exhaustive up to 3 rounds before the terminal step for a fixed list of column sets (zero-copy: fixed-width integers, FixedString, ColRawOf, Bool, Float; copying: String, UUID, LowCardinality, Enum, Array, Map, Nullable) and random longer histories over random column sets from the whole catalogue, x {Disabled, None, LZ4, LZ4HC, ZSTD} x block sizes 1..3000 rows. Oracle: the Data blocks parsed by the reference codec from the bytes copied at Write time must equal [snapshot of the columns at the start of each round] + [one empty terminator] (tail rows on EOF included; nothing after a callback error except an optional Cancel). Non-trivial = >=2 rounds or a tail block; distinct = (history, column set, compression, rows)",
 		Assumptions: []string{"snapshots are taken by the harness inside OnInput before it mutates the columns", "Write calls are recorded by copying the bytes at call time"},
 		MinDistinct: 300,
 	}
@@ -38,9 +38,11 @@ const (
 	hError
 	hNilBlank  // reset the columns and return nil: a round without rows
 	hOverwrite // overwrite the rows in place (same row count, no Reset) through the columns' exported memory
+	hSwap        // hand over other column objects (double buffering): Input[i].Data replaced, the old ones reset
+	hSwapEOFRows // the same, returning io.EOF with the new objects holding the leftover rows
 )
 
-var hNames = []string{"append", "reset+append", "nil-unchanged", "EOF(no rows)", "EOF(leftover rows)", "wrapped-EOF(rows)", "error", "nil-blank-round", "overwrite-in-place"}
+var hNames = []string{"append", "reset+append", "nil-unchanged", "EOF(no rows)", "EOF(leftover rows)", "wrapped-EOF(rows)", "error", "nil-blank-round", "overwrite-in-place", "swap-column-objects", "swap-column-objects+EOF(leftover rows)"}
 
 var errUser = errors.New("verif: user input error")
 
@@ -62,8 +64,8 @@ func findEntry(ts string) *val.Entry {
 func c09(r *core.Run) {
 	var ci int64
 	// exhaustive short histories
-	nonTerm := []int{hAppend, hResetAppend, hNil, hNilBlank, hOverwrite}
-	term := []int{hEOFEmpty, hEOFRows, hWrappedEOF, hError}
+	nonTerm := []int{hAppend, hResetAppend, hNil, hNilBlank, hOverwrite, hSwap}
+	term := []int{hEOFEmpty, hEOFRows, hWrappedEOF, hError, hSwapEOFRows}
 	var hists [][]int
 	var rec func(prefix []int, depth int)
 	rec = func(prefix []int, depth int) {
@@ -196,6 +198,23 @@ func c09Run(r *core.Run, ci int64, rng *rand.Rand, set []string, hist []int, ini
 			return nil
 		case hNilBlank:
 			reset()
+			return nil
+		case hSwap, hSwapEOFRows:
+			// a double-buffered producer: the callback installs other column objects (already
+			// filled) and recycles the old ones
+			for i := range cols {
+				old := cols[i].col
+				cols[i].col = cols[i].e.New()
+				input[i].Data = cols[i].col.Col()
+				old.Col().Reset()
+			}
+			appendRows(rows)
+			r.Count("rounds_with_swapped_column_objects", 1)
+			if op == hSwapEOFRows {
+				expect = append(expect, snapshot())
+				ended = true
+				return io.EOF
+			}
 			return nil
 		case hOverwrite:
 			n := cols[0].col.Col().Rows()
